@@ -42,7 +42,7 @@ type vInv struct {
 
 //verif:harness prop=C14 quick=5 thorough=9 merge=none models=scan,term,hash timeout=1500
 //verif:bounds protocol layer through the real `gts delete`: histories of 2 invocations over one cache directory; each invocation = (input record of 4 symbolic residues, same as or different from the first; locator `2` or `3`; input well-formed or malformed after its first record; one shard: first invocation with -o x.fasta, second to stdout); real ioDelegate/TryCache/cache.File/writer; compared with the same invocation under --no-cache
-//verif:assume scanner = queue of the records (fails after them when the input is malformed), in-memory file system, identity flate, uninterpreted digests without collisions between the inputs compared, json.Marshal modelled by an injective structural encoding (the real encodePayload runs)
+//verif:assume scanner = queue of the records (fails after them when the input is malformed), in-memory file system, flate framing model, uninterpreted digests without collisions between the inputs compared, json.Marshal modelled by an injective structural encoding (the real encodePayload runs)
 func VH_C14_history() {
 	sh := vShard(5 + 4*vTier())
 	toFile := false
@@ -248,7 +248,7 @@ func vRunReal(name string, fn flags.Function, args []string, stdin []byte, home 
 
 //verif:harness prop=C14 quick=2 thorough=4 merge=concrete models=term,hash timeout=1500
 //verif:bounds secondary inputs through the real scanner and writer: gts insert (guest) and gts search (query) on a concrete FASTA host; history of two invocations over one cache directory, one with the literal argument @a (quick) / @ac (thorough) and one with a file of as many symbolic ASCII bytes (so also unparsable files and files that spell a literal), in either order; each compared with its --no-cache run
-//verif:assume in-memory file system, identity flate, uninterpreted digests without collisions between the inputs compared, json.Marshal modelled by an injective structural encoding (the real encodePayload runs)
+//verif:assume in-memory file system, flate framing model, uninterpreted digests without collisions between the inputs compared, json.Marshal modelled by an injective structural encoding (the real encodePayload runs)
 func VH_C14_secondary_input() {
 	sh := vShard(2 + 2*vTier())
 	home, gdir := "/cache-home", "/g"
